@@ -26,12 +26,15 @@ namespace PolyVerif.Nodes
 abbrev Log := List (Nat × Nat)
 
 structure SNode (V : Type) where
-  fn : List (Option Nat) → List (List Nat) → List V → V
-  /-- which wired inputs `Process()` pulls: given the values collected so far (one per dependency
-      already considered; for a dependency that was NOT pulled, its stored value, which a sensible
-      `fn` does not use), is the next dependency pulled with `.Value()`?
-      `fun _ => true` = the processor reads all its wired inputs (guard `ReadsAll`). -/
-  reads : List V → Bool := fun _ => true
+  /-- the user's `Process()`: a function of the wiring and of one entry per dependency in
+      `Dependencies()` order — `some v` the value it pulled, `none` for an input it did not pull
+      (so it cannot depend on a value it never read) -/
+  fn : List (Option Nat) → List (List Nat) → List (Option V) → V
+  /-- which wired inputs `Process()` pulls: given the entries collected so far (one per dependency
+      already considered), is the next dependency pulled with `.Value()`?
+      `fun _ => true` = the processor reads all its wired inputs (guard `ReadsAll`, needed only
+      for the "recompute only on change" theorems). -/
+  reads : List (Option V) → Bool := fun _ => true
   scalars : List (Option Nat)
   arrays : List (List Nat)
   cache : V
@@ -84,13 +87,23 @@ def outdated : Nat → Graph V → Nat → Bool
       | none => true
       | some rv => s.flag || mismatch g (fun d => outdated f g d) s.deps rv
 
-/-- evaluate the current graph from scratch (the specification) -/
+/-- the inputs of a from-scratch `Process()`: it pulls exactly the inputs `reads` selects, given
+    the entries collected so far; `ev d` = the from-scratch value of dependency `d` -/
+def specPull (ev : Nat → V) (reads : List (Option V) → Bool) : List Nat → List (Option V) → List (Option V)
+  | [], acc => acc
+  | d :: ds, acc =>
+    if reads acc then specPull ev reads ds (acc ++ [some (ev d)])
+    else specPull ev reads ds (acc ++ [none])
+
+/-- evaluate the current graph from scratch (the specification): parameters give their values, a
+    struct node runs its `Process()` on from-scratch inputs — a processor that skips inputs skips
+    them here too; no cache, version or remembered list is looked at -/
 def evalSpec : Nat → Graph V → Nat → V
   | 0, g, i => val g i
   | f+1, g, i =>
     match g i with
     | .param x _ => x
-    | .struct s => s.fn s.scalars s.arrays (s.deps.map (fun d => evalSpec f g d))
+    | .struct s => s.fn s.scalars s.arrays (specPull (fun d => evalSpec f g d) s.reads s.deps [])
 
 /-- the user's `Process()` pulling ALL its inputs one after the other with `.Value()`
     (`pullM` with `reads = fun _ => true`, lemma `pullM_all`):
@@ -103,20 +116,20 @@ def pull (ev : Graph V → Nat → Graph V × Log) : Graph V → List Nat → Gr
     let r2 := pull ev r.1 ds
     (r2.1, v :: r2.2.1, r.2 ++ r2.2.2)
 
-/-- `Process()` of a processor that may skip inputs: dependency `d` is evaluated only if
-    `reads acc` says so; otherwise nothing is evaluated and the stored value stands in -/
-def pullM (ev : Graph V → Nat → Graph V × Log) (reads : List V → Bool) :
-    Graph V → List Nat → List V → Graph V × List V × Log
+/-- `Process()` of a processor that may skip inputs: dependency `d` is evaluated (and its value
+    read at that moment) only if `reads acc` says so; otherwise nothing is evaluated -/
+def pullM (ev : Graph V → Nat → Graph V × Log) (reads : List (Option V) → Bool) :
+    Graph V → List Nat → List (Option V) → Graph V × List (Option V) × Log
   | g, [], acc => (g, acc, [])
   | g, d :: ds, acc =>
     if reads acc then
       let r := ev g d
-      let r2 := pullM ev reads r.1 ds (acc ++ [val r.1 d])
+      let r2 := pullM ev reads r.1 ds (acc ++ [some (val r.1 d)])
       (r2.1, r2.2.1, r.2 ++ r2.2.2)
-    else pullM ev reads g ds (acc ++ [val g d])
+    else pullM ev reads g ds (acc ++ [none])
 
 /-- `process()`: cache := Process(), version++, remember the dependency versions, clear the flag -/
-def SNode.executed (s : SNode V) (g1 : Graph V) (vals : List V) : SNode V :=
+def SNode.executed (s : SNode V) (g1 : Graph V) (vals : List (Option V)) : SNode V :=
   { s with cache := s.fn s.scalars s.arrays vals, version := s.version + 1,
            remembered := some (s.deps.map (ver g1)), flag := false }
 
